@@ -300,21 +300,22 @@ def attach(scratch, attachments, contracts=()):
             f.write(src)
 
 
-def require_anchor(scratch, rel, fn, within=None):
+def require_anchor(scratch, rel, fn, within=None, nth=0):
     p = scratch.path(rel)
     if not os.path.exists(p):
         raise Undecided("lost anchor: file %s" % rel)
-    loc = find_fn(open(p).read(), fn, within)
+    loc = find_fn(open(p).read(), fn, within, nth)
     if loc is None:
         raise Undecided("lost anchor: fn %s (%s) in %s" % (fn, within, rel))
     return loc
 
 
-def fn_text(scratch, rel, fn, within=None):
-    """Text of a function (signature + body) copied out of the scratch copy of the working tree."""
+def fn_text(scratch, rel, fn, within=None, nth=0):
+    """Text of a function (signature + body) copied out of the scratch copy of the working tree (nth: the n-th function of
+    that name inside `within`, e.g. the second of two cfg-alternatives)."""
     p = scratch.path(rel)
     src = open(p).read()
-    loc = require_anchor(scratch, rel, fn, within)
+    loc = require_anchor(scratch, rel, fn, within, nth)
     if loc["body_close"] is None:
         raise Undecided("fn %s in %s has no body" % (fn, rel))
     line = src.count("\n", 0, loc["fn_kw"]) + 1
